@@ -4,6 +4,7 @@ D2 == <<"a", "b">>
 D3 == <<"a", "b", "c">>
 AllActs  == {"Add", "WriteLater", "Gap", "PruneAge", "Purge", "Recreate", "Read", "Split"}
 SeqActs  == {"Add", "WriteLater", "Gap", "PruneAge", "Purge", "Recreate", "Read"}
+BehActs  == {"Add", "WriteLater", "PruneAge", "Purge", "Recreate", "Read"}
 BehaviourExport ==
   (Len(hist) = MaxSteps) => PrintT(<<"BEH", ToJson([mx |-> maxLen, mn |-> minLen, steps |-> hist])>>)
 =============================================================================
